@@ -22,7 +22,7 @@ import numpy as np
 
 from harness.util import Snapshot, errname, fr, frs
 
-MUT = ["dil", "dil", "dilslow", "ero", "ero", "open", "close", "diff", "set", "subr", "copyr"]
+MUT = ["dil", "dil", "dilslow", "ero", "ero", "open", "close", "diff", "set", "subr", "copyr", "sete", "sete", "setw"]
 QRY = ["lmax", "glmax", "ws", "hn", "bif", "vor", "kmeans", "kmeansl", "ward", "getfield", "compact", "sub", "copy"]
 
 
@@ -32,6 +32,10 @@ def raw_step(rng, name):
         return [name, rng.choice([1, 1, 1, 2, 3, 0])]
     if name == "diff":
         return ["diff", rng.choice([1, 1, 2, 0])]
+    if name == "sete":      # replace the edges in place, same number of edges (set_edges / attribute assignment)
+        return ["sete", R(), rng.choice(["set_edges", "set_edges", "assign"])]
+    if name == "setw":
+        return ["setw", R()]
     if name == "set":
         return ["set", R(), rng.choice([1, 1, 2, 3]), rng.choice(["float64"] * 3 + ["float32", "int64", "int32", "uint8", "uint16", "int8"]),
                 rng.choice(["2d", "2d", "1d"]), int(rng.random() < 0.08)]
@@ -171,9 +175,42 @@ def run_history(case):
     def fail(msg):
         fails.append(f"after {' -> '.join(trail) or 'construction'}: {msg}")
 
+    segments = []
+
     for step in case["steps"]:
         name = step[0]
         V = int(F.V)
+        if name in ("sete", "setw"):
+            # the graph of the object is replaced in place (same vertices, same number of edges): the model is
+            # re-synchronised with the object (a new `fieldhist` line starts from the state observed now), and every
+            # later operation must answer for the new graph - nothing remembered from the old one
+            E_now = np.asarray(F.edges).reshape(-1, 2)
+            if not len(E_now):
+                continue
+            sub = random.Random(step[1])
+            try:
+                if name == "sete":
+                    perm = list(range(V)); sub.shuffle(perm)
+                    newE = np.array([[perm[int(a)], perm[int(b)]] for a, b in E_now.tolist()], dtype=E_now.dtype)
+                    if step[2] == "assign":
+                        F.edges = newE
+                    else:
+                        F.set_edges(newE)
+                    trail.append(f"{step[2]}(relabelled edges)")
+                else:
+                    F.set_weights(np.array([sub.choice([0.5, 1.0, 2.0, 0.25, 3.0]) for _ in range(len(E_now))]))
+                    trail.append("set_weights(...)")
+            except Exception as e:      # noqa: BLE001
+                fail(f"{name} raised {type(e).__name__}: {e}")
+                continue
+            segments.append((line0, toks, obs))
+            fld_now = np.array(F.field, dtype=float).reshape(V, -1)
+            E3 = [[int(a), int(b), float(w)] for (a, b), w in zip(np.asarray(F.edges).reshape(-1, 2).tolist(),
+                                                                   np.asarray(F.weights, dtype=float).ravel().tolist())]
+            line0 = f"fieldhist {gtxt(V, E3)} {ftxt(fld_now)}"
+            toks, obs = [], [state_text(F)]
+            tags.append("graph-replaced-in-place")
+            continue
         before = np.array(F.field, dtype=float, copy=True).reshape(V, -1)
         dim = before.shape[1]
         edges_before = (np.array(F.edges, copy=True), np.array(F.weights, copy=True))
@@ -417,10 +454,12 @@ def run_history(case):
                      + ("" if want_field is before else f", expected {want_field.T.tolist()}"))
             if not ok and not np.array_equal(now, before):
                 fail(f"{label} raised and left the field modified")
-    line = line0 + f" {len(toks)} " + " ".join(toks)
-    tags.append("fhist-len=" + str(min(len(toks), 12)))
-    return {"lines": [line], "impl": [("hist", " # ".join(obs))], "oracle": fails[0] if fails else None,
-            "nontrivial": bool(case["edges"]) and len(toks) >= 3, "tags": tags, "mutated": mutated}
+    segments.append((line0, toks, obs))
+    ntoks = sum(len(t) for _, t, _ in segments)
+    tags.append("fhist-len=" + str(min(ntoks, 12)))
+    return {"lines": [(l0 + f" {len(t)} " + " ".join(t)).rstrip() for l0, t, _ in segments],
+            "impl": [("hist", " # ".join(o)) for _, _, o in segments], "oracle": fails[0] if fails else None,
+            "nontrivial": bool(case["edges"]) and ntoks >= 3, "tags": tags, "mutated": mutated}
 
 
 def shrink_hist(case):
